@@ -333,6 +333,24 @@ pub fn spaces(tier: Tier) -> Vec<Space<'static>> {
         judge_text(x, acc);
         acc.sample(|| json!({"text": String::from_utf8_lossy(x)}));
     }));
+    // token soup of JSON-text tokens through the binary-first entry points (text fallback path)
+    const TT: [&[u8]; 16] = [b"\"", b"\\", b"n", b"u", b"0", b"1", b"[", b"]", b"{", b"}", b":", b",", b"a", b"\xff", b"\xc3", b" "];
+    sp.push(Space::new("text-token-soup<=5 via from_slice", (0..=5u32).map(|k| 16u64.pow(k)).sum(), |mut i, acc| {
+        let mut len = 0;
+        let mut c = 1u64;
+        while i >= c {
+            i -= c;
+            c *= 16;
+            len += 1;
+        }
+        let mut x = vec![];
+        for _ in 0..len {
+            x.extend_from_slice(TT[(i % 16) as usize]);
+            i /= 16;
+        }
+        judge_bytes(&x, acc, false, &|| json!({}));
+        judge_text(&x, acc);
+    }));
     // giant counts in crash-isolated workers (allocation failure would abort the process)
     sp.push(Space::new("giant-counts-isolated", 1, move |_, acc| {
         let mut cases = vec![];
